@@ -65,6 +65,26 @@ func runCase(c Case, st *Stats) *ev.Failure {
 		if n := ap.GetNumFlows(); int(n) != len(model) {
 			return ev.Failf("after op %d (%s): GetNumFlows()=%d, %d distinct five-tuples were seen", step, what, n, len(model))
 		}
+		// the unfiltered and the partially filtered query see the same flows: one record per tuple
+		if step%5 != 0 && step != len(c.Ops)-1 {
+			goto perFlow
+		}
+		if all := ap.GetRecords(nil); len(all) != len(model) {
+			return ev.Failf("after op %d (%s): GetRecords(nil) returned %d records, %d distinct five-tuples were seen", step, what, len(all), len(model))
+		}
+		for fi := range model {
+			k := c.Flows[fi].Key()
+			want := 0
+			for fj := range model {
+				if kj := c.Flows[fj].Key(); kj.SourceAddress == k.SourceAddress && kj.Protocol == k.Protocol {
+					want++
+				}
+			}
+			if got := ap.GetRecords(&intermediate.FlowKey{SourceAddress: k.SourceAddress, Protocol: k.Protocol}); len(got) != want {
+				return ev.Failf("after op %d (%s): GetRecords filtered by source address %s and protocol %d returned %d records, %d held flows match", step, what, k.SourceAddress, k.Protocol, len(got), want)
+			}
+		}
+	perFlow:
 		for fi, ms := range model {
 			k := c.Flows[fi].Key()
 			rs := ap.GetRecords(&k)
